@@ -167,7 +167,9 @@ where
 		sl.amount = 0;
 	} else if sl.state == SlateState::Standard2 {
 		let keychain = w.keychain(keychain_mask)?;
-		let parent_key_id = w.parent_key_id();
+		// the account the transaction was initiated from (`src_acct_name`), which is not
+		// necessarily the account that is active now
+		let parent_key_id = context.parent_key_id.clone();
 
 		if let Some(args) = context.late_lock_args.take() {
 			// Transaction was late locked, select inputs+change now
